@@ -52,9 +52,12 @@ def body(run):
         thresh = rng.choice([None, 0.0, 0.25, 0.6, 1.0])
         layout = rng.choice(['tiled16', 'tiled32x16', 'strips', 'default'])
         same_names = nb >= 2 and k % 4 == 1       # statistics are per band of the file, whatever the bands are called
-        fn = st.make_param_image(run.work, rng, nb, model, thresh, layout, shape=None if run.thorough else (rng.randint(17, 30), rng.randint(17, 34)),
-                                 same_names=same_names)
-        key = f'synthetic/{model}/{layout}/thresh={thresh}' + ('/same-names' if same_names else '')
+        lshape = k % 5 == 2
+        if lshape:
+            layout = ['tiled16', 'tiled32x16'][(k // 5) % 2]
+        fn = st.make_param_image(run.work, rng, nb, model, thresh, layout, shape=(None if run.thorough else (rng.randint(17, 30), rng.randint(17, 34))) if not lshape else (rng.randint(36, 46), rng.randint(68, 80)),
+                                 same_names=same_names, footprint='L' if lshape else None)
+        key = f'synthetic/{model}/{layout}/thresh={thresh}' + ('/same-names' if same_names else '') + ('/L-footprint' if lshape else '')
         dist[key] = dist.get(key, 0) + 1
         one(fn, dict(kind='synthetic', bands=3 * nb, model=model, r2_inpaint_thresh=thresh, layout=layout))
     for k in range(run.scale(8, 120)):
